@@ -172,7 +172,14 @@ func observe(cfg config) (rec, error) {
 	case err := <-subscribed:
 		served = err == nil
 	case err := <-done:
-		return nil, fmt.Errorf("Serve returned early: %v (panic %v)", err, pv)
+		// Serve may already have returned (nothing to subscribe to): both channels are ready then
+		select {
+		case serr := <-subscribed:
+			served = serr == nil
+			done <- err
+		default:
+			return nil, fmt.Errorf("Serve returned early: %v (panic %v)", err, pv)
+		}
 	case <-time.After(5 * time.Second):
 		return nil, fmt.Errorf("Serve did not reach subscribe")
 	}
